@@ -454,5 +454,109 @@ class CcosFam(Family):
         return None
 
 
+class NormFam(Family):
+    """layer-norm / layer-norm+bias / rms-norm fusions (`rules/fusion`)"""
+    name = "norm"
+    exact = False
+    rule_keys = ("fusion._layer_norm.", "fusion._rms_normalization.")
+    DT = {F32: TP.FLOAT, "float64": TP.DOUBLE, "float16": TP.FLOAT16}
+
+    def tol_for(self, c):
+        # the fused kernels accumulate in the stash type: half-precision hosts differ by an ulp of float16
+        return (4e-3, 4e-3) if c["dtype"] == "float16" else None
+
+    def gen(self, rng):
+        kind = rng.choice(["ln", "ln", "lnbias", "rms", "rms"])
+        return {"fam": "norm", "kind": kind, "dtype": rng.choice([F32, F32, "float64", "float16"]),
+                "eps": rng.choice(["scalar", "scalar", "scalar", "one", "vec", "dyn"]),
+                "other": rng.choice([[4], [4], [4], [1], [], [2, 4], [3, 2, 4], [1, 1, 4]]),
+                "sq": rng.choice(["mul", "pow"]), "nrm": rng.choice(["recip", "div"]), "order": rng.random() < 0.5,
+                "opset": rng.choice([18, 21, 23, 23]), "extra": rng.random() < 0.06, "outs3": rng.random() < 0.1}
+
+    def corpus(self):
+        b = {"fam": "norm", "dtype": F32, "eps": "scalar", "sq": "mul", "nrm": "div", "order": True, "opset": 23, "extra": False, "outs3": False}
+        return [dict(b, kind="ln", other=[4]), dict(b, kind="lnbias", other=[4]), dict(b, kind="rms", other=[4]),
+                dict(b, kind="ln", other=[3, 2, 4]),              # C05-N11 witness
+                dict(b, kind="rms", other=[4], opset=18)]          # C05-N12 witness
+
+    def build(self, c):
+        from onnxscript.rewriter.rules.fusion import _layer_norm, _rms_normalization
+        dt = c["dtype"]
+        hst = Host(opset=c["opset"])
+        gen = lambda r, dt=dt: (r.randint(-6, 7, size=(2, 4)) / 2.0).astype(dt)
+        hst.inp("x", dt, [2, 4], gen=gen)
+        hst.inp("o", dt, c["other"], gen=lambda r, dt=dt, sh=tuple(c["other"]): (r.randint(1, 5, size=sh) / 2.0).astype(dt))
+        hst.const("ax", np.array([-1], dtype=I64), "init")
+        if c["kind"] == "lnbias":
+            outs = ["t", "m", "isd"] if c["outs3"] else ["t"]
+            hst.inp("sc", dt, [4])
+            hst.node("LayerNormalization", ["x", "sc"], outs, axis=-1, epsilon=1e-5)
+            hst.node("Add", ["t", "o"], ["y"])
+            hst.out("y", dt, None)
+            if c["outs3"]:
+                hst.out("m", F32, None)
+            if c["extra"]:
+                hst.out("t", dt, None)
+            return hst, _layer_norm.layer_normalization_ruleset
+        eps = {"scalar": np.array(1e-3, dtype=dt), "one": np.array([1e-3], dtype=dt), "vec": np.array([1e-3] * 4, dtype=dt),
+               "dyn": np.array(1e-3, dtype=dt)}[c["eps"]]
+        hst.const("eps", eps, "input" if c["eps"] == "dyn" else "init")
+        if c["kind"] == "ln":
+            hst.node("ReduceMean", ["x", "ax"], ["mean"], keepdims=1)
+            hst.node("Sub", ["x", "mean"], ["d"])
+            if c["sq"] == "mul":
+                hst.node("Mul", ["d", "d"], ["dd"])
+            else:
+                hst.const("two", np.array(2, dtype=dt), "init")
+                hst.node("Pow", ["d", "two"], ["dd"])
+            hst.node("ReduceMean", ["dd", "ax"], ["var"], keepdims=1)
+            hst.node("Add", ["var", "eps"], ["ve"])
+            hst.node("Sqrt", ["ve"], ["sd"])
+            if c["nrm"] == "div":
+                hst.node("Div", ["d", "sd"], ["n"])
+            else:
+                hst.node("Reciprocal", ["sd"], ["inv"])
+                hst.node("Mul", ["d", "inv"], ["n"])
+            hst.node("Mul", ["n", "o"], ["y"])
+            hst.out("y", dt, None)
+            if c["extra"]:
+                hst.out("n", dt, None)
+            return hst, _layer_norm.layer_normalization_ruleset
+        hst.const("two", np.array(2.0, dtype=dt), "init")
+        hst.node("Pow", ["x", "two"], ["sq"])
+        hst.node("ReduceMean", ["sq", "ax"], ["ms"], keepdims=1, noop_with_empty_axes=0)
+        hst.node("Add", ["ms", "eps"], ["mse"])
+        hst.node("Sqrt", ["mse"], ["r"])
+        hst.node("Reciprocal", ["r"], ["ir"])
+        hst.node("Mul", ["x", "ir"], ["n"])
+        hst.node("Mul", ["n", "o"] if c["order"] else ["o", "n"], ["y"])
+        hst.out("y", dt, None)
+        if c["extra"]:
+            hst.out("n", dt, None)
+        return hst, _rms_normalization.rms_normalization_ruleset
+
+    def line(self, c):
+        t = self.DT[c["dtype"]]
+        if c["kind"] == "lnbias" and c["outs3"]:
+            return "norm kind=none"        # the pattern binds one output of LayerNormalization; a 3-output node whose extra outputs are used does not match
+        eps1 = int(c["eps"] in ("scalar", "one")) if c["kind"] != "lnbias" else 1
+        return (f"norm kind={c['kind']} x={t} sc={t} eps1={eps1} epsf=1 cd=- xr=2 or={len(c['other'])} opset={c['opset']} "
+                f"extra={int(c['extra'])}")
+
+    def observe(self, c, after):
+        from harness.c05_lib import find_node, attr_of
+        n = find_node(after, "RMSNormalization" if c["kind"] == "rms" else "LayerNormalization")
+        if c["kind"] == "lnbias":
+            return "fire stash=-" if len(n.input) == 3 else "fire ?bias-not-absorbed"
+        return f"fire stash={attr_of(n, 'stash_type')}"
+
+    def finding(self, c):
+        if len(c["other"]) > 2:
+            return "C05-N11"
+        if c["kind"] == "rms" and c["opset"] < 23:
+            return "C05-N12"
+        return None
+
+
 def more_families():
-    return [MatmulFam(), HardswishFam(), ConvAffineFam(), DynScatterFam(), SliceSplitFam(), CcosFam()]
+    return [MatmulFam(), HardswishFam(), ConvAffineFam(), DynScatterFam(), SliceSplitFam(), CcosFam(), NormFam()]
